@@ -1347,3 +1347,56 @@ Lemma cursor_order_strict_total :
   (forall a b c, cursor_ltb a b = true -> cursor_ltb b c = true -> cursor_ltb a c = true) /\
   (forall a b, cursor_ltb a b = true \/ a = b \/ cursor_ltb b a = true).
 Proof. exact (conj cursor_ltb_irrefl (conj clt_trans clt_total)). Qed.
+
+(** ** The tie-break by id is a genuine part of the getter's contract
+
+    The Go doc of [EdgeGetter] speaks of "the start / end of the range" without saying how edges
+    with equal timestamps are ordered.  A getter that honours minimum time, maximum time and limit
+    with respect to TIME only (and delivers exactly as many edges as asked) is not enough: *)
+Lemma take_length lim (l1 l2 : list edge) : length l1 = length l2 -> length (take lim l1) = length (take lim l2).
+Proof.
+  intro H. unfold take. destruct (lim =? 0); [exact H|].
+  destruct (0 <? lim); [rewrite !firstn_length | rewrite !lastn_length]; rewrite H; reflexivity.
+Qed.
+
+(** three edges on one timestamp; ties broken by DEscending id *)
+Definition E3 : list edge := [(100, b_a); (100, b_b); (100, b_c)].
+Definition g_desc (q : query) : list edge := take (q_limit q) (rev (sort (filter (in_range q) E3))).
+Definition a_tie : args :=
+  {| a_first := Some 1; a_last := None; a_after := CAbsent; a_before := CAbsent; a_from := None; a_to := None |}.
+
+Lemma E3_NoDup : NoDup E3.
+Proof.
+  unfold E3. repeat constructor; simpl; intro H;
+    repeat match goal with H : _ \/ _ |- _ => destruct H as [H|H] end; try discriminate; exact H.
+Qed.
+
+Lemma g_desc_time_only : honours_time_only g_desc E3.
+Proof.
+  intro q. unfold g_desc.
+  assert (Hin : forall e, In e (take (q_limit q) (rev (sort (filter (in_range q) E3)))) ->
+                          In e E3 /\ in_range q e = true).
+  { intros e H. apply In_take in H. rewrite <- in_rev, sort_In, filter_In in H. exact H. }
+  split; [apply NoDup_take, NoDup_rev, sort_NoDup, NoDup_filter, E3_NoDup|].
+  split; [exact Hin|]. split.
+  - apply take_length. rewrite rev_length, sort_length. reflexivity.
+  - intros e e' He He' _ _.
+    assert (H100 : forall x, In x E3 -> nano x = 100).
+    { intros x Hx. unfold E3 in Hx. simpl in Hx.
+      repeat match goal with H : _ \/ _ |- _ => destruct H as [H|H] end; try contradiction; subst; reflexivity. }
+    rewrite (H100 e (proj1 (Hin e He))), (H100 e' He'). destruct (0 <? q_limit q); lia.
+Qed.
+
+Theorem tiebreak_by_id_needed :
+  exists E g a es info,
+    NoDup E /\ representable E /\ args_ok a = true /\ honours_time_only g E /\
+    fst (conn current g all_sync true a) = OPage es info /\ es <> TimeRef E a.
+Proof.
+  exists E3, g_desc, a_tie. eexists. eexists.
+  split; [apply E3_NoDup|]. split.
+  { intros e H. unfold E3 in H. simpl in H.
+    repeat match goal with H : _ \/ _ |- _ => destruct H as [H|H] end; try contradiction;
+      subst; unfold nano, zero_time, distant_future; simpl; lia. }
+  split; [reflexivity|]. split; [apply g_desc_time_only|].
+  split; [vm_compute; reflexivity|]. vm_compute. discriminate.
+Qed.
